@@ -94,7 +94,7 @@ public:
 
   double Expectation(double a) const
   {
-    return (1 - p_) * dist_->Expectation(a) + (a < invariant_ ? 0 : p_);
+    return (1 - p_) * dist_->Expectation(a) + (a < invariant_ ? 0 : p_ * invariant_);
   }
 
   void setMedian(bool median)
